@@ -1,6 +1,7 @@
 import PfVerif.Proofs.C18
 import PfVerif.Proofs.C18Pfaf
 import PfVerif.Proofs.C18Digits
+import PfVerif.Proofs.C18Part
 import PfVerif.Proofs.C18Topo
 /-! # C18 — sub-basin maps are upstream-closed partitions consistent with their outlets
 
@@ -137,6 +138,38 @@ theorem area_outlet_gt (ds : Array Nat) (seq : List Nat) (usMain : Array Nat) (u
     (areaDec_imp ds usMain uparea amin) seq _ o ho with h | h
   · simp at h
   · exact h
+
+theorem areaDec_main (ds usMain : Array Nat) (uparea : Array Int) (amin : Int) (s : Array Int)
+    (x : Nat) (h : areaDec ds usMain uparea amin s x = true) :
+    ds[x]! = x ∨ usMain[ds[x]!]! ≠ x ∨ uparea[ds[x]!]! - uparea[x]! ≤ amin := by
+  unfold areaDec at h
+  simp only at h
+  by_cases hp : ds[x]! = x
+  · exact Or.inl hp
+  · rw [if_neg hp] at h
+    split at h
+    · simp only [Bool.or_eq_true, Bool.not_eq_true', decide_eq_false_iff_not, bne_iff_ne, ne_eq] at h
+      rcases h with h | h
+      · exact Or.inr (Or.inr (by omega))
+      · exact Or.inr (Or.inl h)
+    · cases h
+
+/-- **a main-stem cut leaves no large tributary behind**: an outlet that is the main upstream cell
+of its downstream cell `d` is only created when everything else draining to `d` (the cell itself
+and its tributaries) is at most `area_min` (`not conf`). One of the ingredients of the size clause. -/
+theorem area_main_cut_small_rest (ds : Array Nat) (seq : List Nat) (usMain : Array Nat)
+    (uparea : Array Int) (amin : Int) (o : Nat) (ho : o ∈ (subbasinsArea ds seq usMain uparea amin).2)
+    (hnp : ds[o]! ≠ o) (hmain : usMain[ds[o]!]! = o) : uparea[ds[o]!]! - uparea[o]! ≤ amin := by
+  unfold subbasinsArea areaSeeds at ho
+  simp only at ho
+  rcases pushFold_mem _ _
+      (fun x => ds[x]! = x ∨ usMain[ds[x]!]! ≠ x ∨ uparea[ds[x]!]! - uparea[x]! ≤ amin)
+      (areaDec_main ds usMain uparea amin) seq _ o ho with h | h
+  · simp at h
+  · rcases h.2 with h1 | h1 | h1
+    · exact absurd h1 hnp
+    · exact absurd hmain h1
+    · exact h1
 
 /-- **every pit is an outlet** (so every cell of the network is labelled) -/
 theorem area_pits_outlets (ds : Array Nat) (seq : List Nat) (usMain : Array Nat) (uparea : Array Int)
@@ -302,11 +335,11 @@ Not proved at algorithm level: that the first *returned outlet* downstream carri
 theorem pfaf_fill_partial (pits : List Nat) (ds : Array Nat) (seq : List Nat) (usMain : Array Nat)
     (uparea : Array Int) (mask : Option (Array Bool)) (depth : Nat)
     (htopo : Topo ds seq) (hb : ∀ i ∈ seq, i < ds.size)
-    (br : Array Int) (idxs : List Nat) (tie : Bool)
-    (h : pfBranch pits ds seq usMain uparea mask depth = some (br, idxs, tie)) :
-    ∃ lab, subbasinsPfafstetter pits ds seq usMain uparea mask depth = some (lab, idxs, tie) ∧
+    (br : Array Int) (idxs : List Nat) (tie ok : Bool)
+    (h : pfBranch pits ds seq usMain uparea mask depth = some (br, idxs, tie, ok)) :
+    ∃ lab, subbasinsPfafstetter pits ds seq usMain uparea mask depth = some (lab, idxs, tie, ok) ∧
       ∀ i ∈ seq, LabelOK ds (fun o => br[o]! ≠ 0) (fun o => br[o]! % (10 : Int) ^ depth) i lab[i]! := by
-  have hsz : br.size = ds.size := pfBranch_size _ _ _ _ _ _ _ _ _ _ h
+  have hsz : br.size = ds.size := pfBranch_size _ _ _ _ _ _ _ _ _ _ _ h
   refine ⟨amap (fun v => v % (10 : Int) ^ depth) (fillnodataUpstream ds seq br 0),
     by simp [subbasinsPfafstetter, h], fun i hi => ?_⟩
   have hb' : ∀ i ∈ seq, i < br.size := fun i hi => by rw [hsz]; exact hb i hi
@@ -325,6 +358,89 @@ theorem pfaf_fill_partial (pits : List Nat) (ds : Array Nat) (seq : List Nat) (u
     show (sweepDown ds (gFillNd 0) seq br)[i]! % (10 : Int) ^ depth = _
     rw [hv]
 
+/-- **first-returned-outlet partition of the Pfafstetter map** (algorithm level, every input for which
+the model run meets its side condition `ok = true`, the 4th component: every inter-basin outlet
+`idx1` was, when it was created, a raster cell whose code was 0 or the code of the inter-basin
+below it — i.e. the (at most four) tributaries of a stem were visited from down- to upstream).
+Then every returned outlet carries a non-zero code and every cell of the network carries the code of
+the FIRST returned outlet on its downstream path, 0 iff there is none.
+Loop invariant (`PfafInv`): a coded cell that is not a returned outlet is the main upstream cell of its
+downstream cell, is a stream cell, and carries its downstream cell's code.
+Missing for the unconditional statement: `ok = true` for every genuine tie-free upstream-area field
+(needs: `sortDesc` by `uparea[ds ·]` orders confluences of one stem from down- to upstream, and
+distinct stems carry distinct codes); the flag is evaluated on every run of the model by the harness. -/
+theorem pfaf_partition (pits : List Nat) (ds : Array Nat) (seq : List Nat) (usMain : Array Nat)
+    (uparea : Array Int) (mask : Option (Array Bool)) (depth : Nat) (hd : 1 ≤ depth)
+    (htopo : Topo ds seq) (hb : ∀ i ∈ seq, i < ds.size) (hus : usMainOK ds usMain = true)
+    (lab : Array Int) (idxs : List Nat) (tie : Bool)
+    (h : subbasinsPfafstetter pits ds seq usMain uparea mask depth = some (lab, idxs, tie, true)) :
+    (∀ o ∈ idxs, lab[o]! ≠ 0) ∧
+    (∀ i ∈ seq, LabelOK ds (· ∈ idxs) (fun o => lab[o]!) i lab[i]!) ∧
+    (∀ i ∈ seq, lab[i]! = 0 ↔ ∀ m, iterA ds m i ∉ idxs) := by
+  cases hbr : pfBranch pits ds seq usMain uparea mask depth with
+  | none => simp [subbasinsPfafstetter, hbr] at h
+  | some x =>
+    obtain ⟨br, idxs', tie', ok'⟩ := x
+    simp only [subbasinsPfafstetter, hbr, Option.map_some, Option.some.injEq, Prod.mk.injEq] at h
+    obtain ⟨h1, h2, h3, h4⟩ := h
+    subst h1 h2 h3 h4
+    have hinv := pfBranch_inv pits ds seq usMain uparea mask depth hus hb br idxs' tie' hbr
+    have hgood := pfBranch_good pits ds seq usMain uparea mask depth hd br idxs' tie' true hbr
+    have hb' : ∀ i ∈ seq, i < br.size := fun i hi => by rw [hinv.size]; exact hb i hi
+    have hfsz : (fillnodataUpstream ds seq br 0).size = ds.size := by
+      simp [fillnodataUpstream, hinv.size]
+    have hget : ∀ j, j < ds.size →
+        (amap (fun v => v % (10 : Int) ^ depth) (fillnodataUpstream ds seq br 0))[j]! =
+          (fillnodataUpstream ds seq br 0)[j]! % (10 : Int) ^ depth :=
+      fun j hj => amap_get! _ j (by rw [hfsz]; exact hj)
+    have hout : ∀ o ∈ idxs',
+        (amap (fun v => v % (10 : Int) ^ depth) (fillnodataUpstream ds seq br 0))[o]! ≠ 0 := by
+      intro o ho
+      obtain ⟨hlt, hne⟩ := hinv.out o ho
+      have hfill : (fillnodataUpstream ds seq br 0)[o]! = br[o]! := by
+        by_cases hos : o ∈ seq
+        · exact (fill_first_valid ds br 0 seq htopo hb' o hos).unique (FirstValid.here o hne)
+        · exact fill_untouched ds br 0 seq htopo hb' o hos
+      rw [hget o hlt, hfill]
+      rcases hgood o with h0 | hg
+      · exact absurd h0 hne
+      · have := (hg.emod_dig hd).1; omega
+    have hlab : ∀ i ∈ seq, LabelOK ds (· ∈ idxs')
+        (fun o => (amap (fun v => v % (10 : Int) ^ depth) (fillnodataUpstream ds seq br 0))[o]!) i
+        (amap (fun v => v % (10 : Int) ^ depth) (fillnodataUpstream ds seq br 0))[i]! := by
+      intro i hi
+      rw [hget i (hb i hi)]
+      exact (hinv.partition htopo hb (fun v => v % (10 : Int) ^ depth) (by simp) i hi).congr
+        (fun _ => Iff.rfl) (fun o ho => (hget o (hinv.out o ho).1).symm)
+    exact ⟨hout, hlab, fun i hi => (hlab i hi).zero_iff hout⟩
+
+/-- **upstream closed** (Pfafstetter, under the same side condition): a cell of the network that is
+not a returned outlet carries the code of its downstream cell. -/
+theorem pfaf_upstream_closed (pits : List Nat) (ds : Array Nat) (seq : List Nat) (usMain : Array Nat)
+    (uparea : Array Int) (mask : Option (Array Bool)) (depth : Nat) (hd : 1 ≤ depth)
+    (htopo : Topo ds seq) (hb : ∀ i ∈ seq, i < ds.size) (hus : usMainOK ds usMain = true)
+    (lab : Array Int) (idxs : List Nat) (tie : Bool)
+    (h : subbasinsPfafstetter pits ds seq usMain uparea mask depth = some (lab, idxs, tie, true))
+    (j : Nat) (hj : j ∈ seq) (hout : j ∉ idxs) : lab[j]! = lab[ds[j]!]! := by
+  obtain ⟨_, h2, _⟩ := pfaf_partition pits ds seq usMain uparea mask depth hd htopo hb hus lab idxs tie h
+  exact ((h2 j hj).step_down hout).unique (h2 _ (htopo.ds_mem j hj))
+
+/-- **link rule, reduced to the links that leave a returned outlet** (algorithm level, same side
+condition): on every other link of the network the two codes are equal, so the rule
+"at the first level where the codes differ the downstream digit is odd and smaller" holds trivially.
+Missing for the full link rule: the links `o → ds o` of returned outlets `o` — needs that later
+(deeper-level) writes keep the digits of the levels above, and that the inter-basin below a
+tributary carries a smaller digit (visiting order); evaluated per run by `linkOK` (`pfaf_link_cert`). -/
+theorem pfaf_link_nonoutlet (pits : List Nat) (ds : Array Nat) (seq : List Nat) (usMain : Array Nat)
+    (uparea : Array Int) (mask : Option (Array Bool)) (depth : Nat) (hd : 1 ≤ depth)
+    (htopo : Topo ds seq) (hb : ∀ i ∈ seq, i < ds.size) (hus : usMainOK ds usMain = true)
+    (lab : Array Int) (idxs : List Nat) (tie : Bool)
+    (h : subbasinsPfafstetter pits ds seq usMain uparea mask depth = some (lab, idxs, tie, true))
+    (j : Nat) (hj : j ∈ seq) (hout : j ∉ idxs) (k : Nat) : linkOKAt ds lab k j = true := by
+  have := pfaf_upstream_closed pits ds seq usMain uparea mask depth hd htopo hb hus lab idxs tie h j hj hout
+  unfold linkOKAt
+  simp [this]
+
 /-- **digits 1–9 per level** (algorithm level, every input): with `depth ≥ 1`, every cell of the
 network carries 0 or a code with exactly `depth` digits, each in 1..9 (`dig k` = digit of level `k`,
 0 = deepest). Invariant of the worklist loop: every code written to `pfaf_branch` is `11…1` plus
@@ -332,8 +448,8 @@ increments `δ·10^e`, `δ ∈ 1..8`, at a level `e` whose digit was still 1. -/
 theorem pfaf_digits (pits : List Nat) (ds : Array Nat) (seq : List Nat) (usMain : Array Nat)
     (uparea : Array Int) (mask : Option (Array Bool)) (depth : Nat) (hd : 1 ≤ depth)
     (htopo : Topo ds seq) (hb : ∀ i ∈ seq, i < ds.size)
-    (lab : Array Int) (idxs : List Nat) (tie : Bool)
-    (h : subbasinsPfafstetter pits ds seq usMain uparea mask depth = some (lab, idxs, tie)) :
+    (lab : Array Int) (idxs : List Nat) (tie ok : Bool)
+    (h : subbasinsPfafstetter pits ds seq usMain uparea mask depth = some (lab, idxs, tie, ok)) :
     ∀ i ∈ seq, lab[i]! = 0 ∨
       (0 < lab[i]! ∧ lab[i]! < (10 : Int) ^ depth ∧
         ∀ k, k < depth → 1 ≤ dig k lab[i]! ∧ dig k lab[i]! ≤ 9) := by
@@ -341,13 +457,13 @@ theorem pfaf_digits (pits : List Nat) (ds : Array Nat) (seq : List Nat) (usMain 
   cases hbr : pfBranch pits ds seq usMain uparea mask depth with
   | none => simp [subbasinsPfafstetter, hbr] at h
   | some x =>
-    obtain ⟨br, idxs', tie'⟩ := x
-    obtain ⟨lab', hl', hlab⟩ := pfaf_fill_partial pits ds seq usMain uparea mask depth htopo hb br idxs' tie' hbr
+    obtain ⟨br, idxs', tie', ok'⟩ := x
+    obtain ⟨lab', hl', hlab⟩ := pfaf_fill_partial pits ds seq usMain uparea mask depth htopo hb br idxs' tie' ok' hbr
     rw [h] at hl'
     simp only [Option.some.injEq, Prod.mk.injEq] at hl'
     obtain ⟨hl1, _, _⟩ := hl'
     subst hl1
-    have hgood := pfBranch_good pits ds seq usMain uparea mask depth hd br idxs' tie' hbr
+    have hgood := pfBranch_good pits ds seq usMain uparea mask depth hd br idxs' tie' ok' hbr
     rcases hlab i hi with ⟨hv, _⟩ | ⟨m, hm, hv, _⟩
     · exact Or.inl hv
     · right
@@ -410,7 +526,7 @@ example : subbasinsArea exDs exSeq #[1, 2, 4, 6, 7, 7, 7] #[7, 6, 3, 2, 1, 1, 1]
 example : areaSizeOK exDs #[1, 1, 1, 1, 1, 1, 1] 1 [0, 3] #[1, 1, 1, 2, 1, 1, 2] = true := by decide
 -- Pfafstetter, depth 1 and 2
 example : subbasinsPfafstetter [0] exDs exSeq #[1, 2, 4, 6, 7, 7, 7] #[7, 6, 3, 2, 1, 1, 1] none 1 =
-    some (#[1, 1, 3, 2, 5, 4, 2], [0, 3, 2, 5, 4], false) := by decide
+    some (#[1, 1, 3, 2, 5, 4, 2], [0, 3, 2, 5, 4], false, true) := by decide
 example : subOK exDs [0, 3, 2, 5, 4] #[1, 1, 3, 2, 5, 4, 2] = true ∧
     digitsOK 1 #[1, 1, 3, 2, 5, 4, 2] = true ∧ linkOK exDs 1 #[1, 1, 3, 2, 5, 4, 2] = true := by decide
 example : refineOK #[1, 1, 3, 2, 5, 4, 2] #[11, 11, 31, 21, 51, 41, 21] = true := by decide
@@ -423,11 +539,11 @@ def exUpa2 : Array Int := #[10, 9, 4, 1, 4, 3, 1, 1, 2, 1]
 def exMain2 : Array Nat := #[1, 2, 8, 10, 5, 6, 10, 10, 9, 10]
 example : isTopo exDs2 exSeq2 = true ∧ mainUpstream exDs2 exUpa2 0 = exMain2 := by decide
 example : subbasinsPfafstetter [0] exDs2 exSeq2 exMain2 exUpa2 none 1 =
-    some (#[1, 1, 3, 4, 2, 2, 2, 2, 5, 5], [0, 4, 2, 3, 8], false) := by decide +kernel
+    some (#[1, 1, 3, 4, 2, 2, 2, 2, 5, 5], [0, 4, 2, 3, 8], false, true) := by decide +kernel
 example : subbasinsPfafstetter [0] exDs2 exSeq2 exMain2 exUpa2 none 2 =
-    some (#[11, 11, 31, 41, 21, 21, 23, 22, 51, 51], [0, 4, 2, 3, 8, 7, 6], false) := by decide +kernel
+    some (#[11, 11, 31, 41, 21, 21, 23, 22, 51, 51], [0, 4, 2, 3, 8, 7, 6], false, true) := by decide +kernel
 example : subbasinsPfafstetter [0] exDs2 exSeq2 exMain2 exUpa2 (pfMask exUpa2 (some 2)) 2 =
-    some (#[11, 11, 31, 31, 21, 21, 21, 21, 31, 31], [0, 4, 2], false) := by decide +kernel
+    some (#[11, 11, 31, 31, 21, 21, 21, 21, 31, 31], [0, 4, 2], false, true) := by decide +kernel
 example : subOK exDs2 [0, 4, 2, 3, 8, 7, 6] #[11, 11, 31, 41, 21, 21, 23, 22, 51, 51] = true ∧
     digitsOK 2 #[11, 11, 31, 41, 21, 21, 23, 22, 51, 51] = true ∧
     linkOK exDs2 2 #[11, 11, 31, 41, 21, 21, 23, 22, 51, 51] = true ∧
